@@ -195,6 +195,18 @@ func (in *c14Inst) resolveSets() {
 // independently drawn arguments.
 func c14Gen2(t *rapid.T) c14Case {
 	c := c14GenBase(t)
+	hasLA := false
+	for _, p := range c.Params {
+		hasLA = hasLA || p.LA
+	}
+	// explicit empty alternatives (lookahead flags cannot pass through nullable nonterminals, so
+	// only in grammars without them)
+	if !hasLA && len(c.NTs) > 1 && rapid.IntRange(0, 2).Draw(t, "emptyAlts") == 0 {
+		for n := rapid.IntRange(1, 2).Draw(t, "nEmpty"); n > 0; n-- {
+			nt := &c.NTs[rapid.IntRange(1, len(c.NTs)-1).Draw(t, "emptyIn")]
+			nt.Alts = append(nt.Alts, tAlt{})
+		}
+	}
 	if rapid.IntRange(0, 2).Draw(t, "withSets") != 0 {
 		// (sets are evaluated over the rules reachable from an input with end-of-input: the two
 		// features are kept apart)
@@ -216,7 +228,10 @@ func c14Gen2(t *rapid.T) c14Case {
 	place := func(p tPart) {
 		nt := &c.NTs[rapid.IntRange(0, len(c.NTs)-1).Draw(t, "setInNT")]
 		a := &nt.Alts[rapid.IntRange(0, len(nt.Alts)-1).Draw(t, "setInAlt")]
-		pos := rapid.IntRange(1, len(a.Parts)).Draw(t, "setAt")
+		pos := 0
+		if len(a.Parts) > 0 {
+			pos = rapid.IntRange(1, len(a.Parts)).Draw(t, "setAt")
+		}
 		a.Parts = append(a.Parts[:pos:pos], append([]tPart{p}, a.Parts[pos:]...)...)
 	}
 	for n := rapid.IntRange(1, 2).Draw(t, "nsets"); n > 0; n-- {
